@@ -16,7 +16,7 @@ pub fn def() -> CheckDef {
         rule: "case = 2..12 (thorough: up to 64) concurrently started processes over 1..3 generated models with overlapping variable names, each with its own start valuation x cache capacity in {1, 2, n/2, n, 1024} (capacity below the number of processes evicts processes that are in use) x evictions of seeded processes at seeded quiescent points (dropped and reloaded from the store) x store backend x a client that answers any open interrupt of any process in a seeded order x seeded schedule, plus a second start with the pid of a live process. Every process's projection (multiset of its messages up to ids, final task outcomes, terminal event and outputs) must equal the same (model, valuation, client table) run alone with the default cache; pids unique; duplicate start refused; no message carries a foreign pid. non-trivial = at least 3 processes ran concurrently and the capacity was below their number or two processes of the same model had different valuations; distinct = distinct (scenario hash, schedule hash)",
         level: "exploration",
         assumptions: &["runtime worker threads are approximated by task-level interleaving (layer 1)", "models without run-time generated acts (their reload is the recorded finding of C12)", "monotone simulated clock", "no storage errors are injected"],
-        probes: &["probe.capacity_below_processes", "probe.evicted_and_reloaded", "probe.same_model_different_values", "probe.duplicate_start", "probe.sqlite", "probe.ten_or_more_processes"],
+        probes: &["probe.capacity_below_processes", "probe.evicted_and_reloaded", "probe.same_model_different_values", "probe.duplicate_start", "probe.sqlite", "probe.ten_or_more_processes", "probe.nodes_without_id"],
         quick_cases: 600,
         no_shrink: &[],
     }
@@ -64,6 +64,25 @@ fn gen_scenario(rng: &mut vsim::rng::Rng, thorough: bool) -> Scenario {
                 s.acts.push(MAct { id: format!("rd{}", mi), key: format!("{}reader", p), kind: ActKind::Msg, params: json!({"a": "{{ a }}", "b": "{{ b }}"}), ..Default::default() });
             }
         }
+        // the process env: written by scripts somewhere along the flow (a per-process value), read by the last
+        // step - what a script has put there must still be there after the process was evicted and reloaded
+        if rng.below(5) < 3 {
+            let mut n = 0;
+            fn env_writers(steps: &mut [MStep], rng: &mut vsim::rng::Rng, n: &mut u32, mi: usize) {
+                for s in steps.iter_mut() {
+                    if !s.acts.is_empty() && rng.below(3) == 0 {
+                        *n += 1;
+                        let pos = rng.below(s.acts.len() as u64 + 1) as usize;
+                        s.acts.insert(pos, MAct { id: format!("ew{}_{}", mi, n), kind: ActKind::Code(format!("$env.e{} = a * 10 + b + {};", rng.below(2), 100 * *n)), ..Default::default() });
+                    }
+                    for b in s.branches.iter_mut() {
+                        env_writers(&mut b.steps, rng, n, mi);
+                    }
+                }
+            }
+            env_writers(&mut m.steps, rng, &mut n, mi);
+            m.steps.push(MStep { id: format!("envrd{}", mi), acts: vec![MAct { id: format!("envrd{}_m", mi), key: format!("{}env_reader", p), kind: ActKind::Msg, params: json!({"e0": "{{ $env.e0 }}", "e1": "{{ $env.e1 }}"}), ..Default::default() }], ..Default::default() });
+        }
         m.outputs.insert("a".into(), None);
         m.outputs.insert("b".into(), None);
         sc.models.push(m);
@@ -97,6 +116,12 @@ fn gen_scenario(rng: &mut vsim::rng::Rng, thorough: bool) -> Scenario {
     sc.max_ops = 2000;
     sc.step_cap = 200_000;
     sc.capture = false;
+    // some nodes without an id in the YAML (the generated id must be the same after a reload from the store)
+    if rng.below(3) == 0 {
+        for m in sc.models.iter_mut() {
+            anonymise(m, rng, 400, false);
+        }
+    }
     sc
 }
 
@@ -200,6 +225,9 @@ pub fn case(ctx: &mut CaseCtx) -> CaseOut {
     }
     if sc.engine.store == "sqlite" {
         ctx.count("probe.sqlite", 1);
+    }
+    if sc.models.iter().any(|m| !m.anon.is_empty()) {
+        ctx.count("probe.nodes_without_id", 1);
     }
     if n >= 10 {
         ctx.count("probe.ten_or_more_processes", 1);
